@@ -6,7 +6,7 @@ ID = 'C09'
 HARNESSES = ['h_c09.cpp']
 LEVEL = 'model_checking'
 BUDGET = {'quick': 280, 'thorough': 2400}
-BOUNDS = {'quick': '(a) Parameter::set(data, dims) for int/float/string with 0..4 elements and 0..7 dimensions, EVERY extent a free 8-bit variable (0..255): accepted <=> element count = product of extents, decided by z3 against a 64-bit product; refusal leaves the parameter unchanged. (b) all sequences of 2 tree edits (add with symbolic name that may equal an existing one, replace with another type, new group, lock/unlock) on a fresh and on a loaded object; whole tree compared',
+BOUNDS = {'quick': '(a) Parameter::set(data, dims) for int/float/string with 0..4 elements and 0..7 dimensions, EVERY extent a free 8-bit variable (0..255): accepted <=> element count = product of extents, decided by z3 against a 64-bit product; refusal leaves the parameter unchanged. (b) all sequences of 2 tree edits (add with symbolic name that may equal an existing one, replace with another type, new group, lock/unlock) on a fresh object, on a loaded object and on an object loaded from a file with two groups of the same name; whole tree compared',
           'thorough': '(a) 0..8 elements; (b) sequences of 3 edits'}
 OUTSIDE = 'extents above 255 (outside the format); replacing the mandatory POINT/ANALOG parameters the updaters read (their type is a precondition of every other call)'
 ASSUMPTIONS = ['the oracle product is computed in 64-bit bit-vectors, exact because 255^7 < 2^56']
@@ -21,10 +21,10 @@ def jobs(tier, seed):
                     if tier == 'quick' and ndims > 4 and ndata not in (0, 1, nd): continue
                     out.append({'entry': 'h_c09_set', 'harness': 'h_c09.cpp', 'name': 'set', 'cfg': {'type': type_, 'ndata': ndata, 'ndims': ndims, 'slen': 2, 'prior': prior}})
     depth = 2 if tier == 'quick' else 3
-    for start in (0, 1):
+    for start in (0, 1, 2):
         for op in range(7):
             for kind in (0, 1, 2):
-                for nlen in ((4,) if tier == 'quick' else (4, 6)):
+                for nlen in ((3, 4, 7, 10) if kind == 0 else (4,)) if tier == 'quick' else (3, 4, 6, 7, 10):
                     if op != 0 and (kind, nlen) != (0, 4): continue
                     out.append({'entry': 'h_c09_tree', 'harness': 'h_c09.cpp', 'name': 'tree', 'cfg': {'depth': depth, 'start': start, 'kind': kind, 'nlen': nlen}, 'forced': [op]})
     return out
@@ -93,7 +93,7 @@ def tree_obligations(sec, job, st, eng=None):
         B = obsmodel.parse_dump(sec['before' + sfx])['groups']; A = obsmodel.parse_dump(sec['after' + sfx])['groups']
         name = {0: 'parameter(FORCE_PLATFORM, symbolic name)', 1: 'parameter(FORCE_PLATFORM, ZERO)', 2: 'parameter(new group)', 3: 'parameter(new group) again', 4: 'lockGroup(FORCE_PLATFORM)', 5: 'unlockGroup(FORCE_PLATFORM)', 6: 'lockGroup(ANALOG)'}[op]
         if op >= 4:
-            target = 'FORCE_PLATFORM' if op in (4, 5) else 'ANALOG'
+            target = ('EXTRA' if job['cfg']['start'] == 2 else 'FORCE_PLATFORM') if op in (4, 5) else 'ANALOG'
             if not any(obsmodel.cstr(g['name']) == target for g in B):
                 # documented: std::invalid_argument for a group that does not exist; nothing changes
                 O.append(Obl('tree/unknown-group-class', out != 2, '%s on an object without that group: outcome class %d, documented invalid_argument' % (name, out)))
@@ -145,10 +145,11 @@ def tree_obligations(sec, job, st, eng=None):
             else:
                 O.append(Obl('tree/param-count', True, '%s: %d parameters before, %d after' % (name, len(bp), len(ap))))
         else:
-            target = 'FORCE_PLATFORM' if op in (4, 5) else 'ANALOG'
+            target = ('EXTRA' if job['cfg']['start'] == 2 else 'FORCE_PLATFORM') if op in (4, 5) else 'ANALOG'
             O.append(Obl('tree/group-count', len(A) != len(B), '%s changes the number of groups' % name))
+            first = [i for i in range(len(B)) if obsmodel.cstr(B[i]['name']) == target][:1]
             for i in range(min(len(A), len(B))):
-                if obsmodel.cstr(B[i]['name']) == target:
+                if i in first:
                     O.append(Obl('tree/lock-flag', A[i]['locked'] != (0 if op == 5 else 1), '%s: flag is %s' % (name, A[i]['locked'])))
                     O += group_eq('tree/others-unchanged', B[i], A[i], 'group %d after %s' % (i, name), skip_lock=True)
                 else: O += group_eq('tree/others-unchanged', B[i], A[i], 'group %d after %s' % (i, name))
@@ -171,11 +172,20 @@ def group_eq(prefix, b, a, detail, skip_lock=False):
     for i, (x, y) in enumerate(zip(b['params'], a['params'])): O += param_eq(prefix, x, y, '%s parameter %d' % (detail, i))
     return O
 
+def dup_group_file():
+    """a file that declares two groups with the same name under different ids (the reader accepts it; look-ups resolve to the first)"""
+    S = gen.Syms()
+    c = gen.make_content(S, P=1, C=0, sub=0, F=1, analog='empty', symbolic_meta=False, extras=[{'name': 'INTS', 'type': 2, 'dims': [2]}, {'name': 'REALS', 'type': 4, 'dims': [1]}])
+    c.groups.append(c3dref.Group(7, 'EXTRA', [], False, [c3dref.Param('OTHER', 2, [1], [S.bv('oi', 16)], [], False), c3dref.Param('INTS', 2, [1], [S.bv('oi', 16)], [], False)]))
+    return S, c3dref.encode_with_data_start(c, c3dref.Layout())
+
 def run_job(engine, job):
     if job['name'] == 'set': return std_run(engine, job, set_obligations, 'c09.end', ID, 'set')
     files = None; assume = None
     if job['cfg']['start'] == 1:
         S, cells = histcommon.start_file(); files = {'in.c3d': gen.to_engine_cells(cells)}; assume = S.cons
+    elif job['cfg']['start'] == 2:
+        S, cells = dup_group_file(); files = {'in.c3d': gen.to_engine_cells(cells)}; assume = S.cons
     eng = engine('O1')
     return std_run(engine, job, lambda sec, job, st: tree_obligations(sec, job, st, eng), 'c09.end', ID, 'tree', files=files, assume=assume, forced_choices=job['forced'])
 
